@@ -1,30 +1,13 @@
 #![allow(dead_code)]
-use aldrin_core::message::*;
-use aldrin_core::ObjectUuid;
-use simbus::peer::{Bus, ConnectAs};
-use simbus::{Policy, Sim};
-
-fn smoke(det: u64) -> String {
-    vcommon::with_det_seed(det, 1 << 22, move || {
-        let mut bus = Bus::new(Sim::new(1, Policy::Random));
-        let mut a = bus.connect("a", ConnectAs::New(1, 20), 10_000);
-        let mut b = bus.connect("b", ConnectAs::Legacy(14), 10_000);
-        let ra = a.peer.drain();
-        let rb = b.peer.drain();
-        a.peer.send(Message::CreateObject(CreateObject { serial: 1, uuid: ObjectUuid(uuid::Uuid::from_u128(7)) }));
-        let r = bus.sim.run(10_000);
-        let ra2 = a.peer.drain();
-        format!("{:?}\n{:?}\n{:?}\n{:?}", ra, rb, ra2, r)
-    })
-    .unwrap()
-}
+mod checks;
+mod engine;
+mod gen;
+mod model;
+#[path = "../../codec/src/refcodec.rs"]
+mod refcodec;
+#[path = "../../codec/src/vgen.rs"]
+mod vgen;
 
 fn main() {
-    vcommon::install_panic_hook();
-    let x = smoke(5);
-    let y = smoke(5);
-    let z = smoke(6);
-    println!("{}", x);
-    println!("same seed equal: {}", x == y);
-    println!("other seed differs: {}", x != z);
+    vcommon::main(&[&checks::C02, &checks::C03, &checks::C04, &checks::C05, &checks::C10])
 }
